@@ -1,5 +1,6 @@
 import Driver.Proto
 import Model.RateLimiter
+import Model.RateLimiterInt
 import Model.RateLimiterWindow
 import Model.RateLimiterRW
 open Proto RL
@@ -45,6 +46,12 @@ def DS.answers (d : DS) (s s' : S) : String :=
   " ".intercalate (sorted.map fun a => "r" ++ toString a.1 ++ "=" ++ ansStr a.2)
 
 def DS.capStr (d : DS) (l : Nat) (ap : Bool) : String := toString (capOf d.s l ap)
+
+/-- the decision of `Use` computed a second time on machine ints (`RL.useDecI`: the state as Go `int`s, every intermediate
+    with wrap-around, independent of `fits` / `effCap`) and the decision the model takes (`RL.useDecN`, which `RL.exec`
+    acts on: `C16.machine_int_decisions_are_the_models`); a transcription error in either shows as a difference -/
+def machineIntAgrees (s : S) (l : Nat) (amt : Int) : Bool :=
+  useDecI (fun x => (s.cap x : Int)) (fun x => (s.used x : Int)) s.closed (s.chain l) l amt == useDecN s l amt
 
 /-- the whole state of the tree after a call, as the white-box harness prints it (`go/overlay/c16_rate_dump.go`):
     capacity, used (open limiters only), last and closed flag of every limiter, and the waiting queue in order as
@@ -205,6 +212,7 @@ def step (st : Option DS) (line : String) : Option DS × String :=
         let out := match s'.answered.find? (fun x => x.1 == s.nextReq) with
           | some x => ansStr x.2
           | none => "pending"
+        let out := if machineIntAgrees s (d.mid l) a then out else out ++ " machine-int-decision-differs"
         (some { d with s := s' }, "r" ++ toString s.nextReq ++ " " ++ out)
       else (st, "bad-handle")
     | _, _ => (st, "bad-op")
